@@ -10,5 +10,6 @@ int main(int argc, char **argv) {
     RUN("shared_future_trivial_types", 1, true, scn::shared_future_trivial_types(o, R, o.cases));
     RUN("shared_future_string_values", 1, true, scn::shared_future_string_values(o, R, o.cases));
     RUN("shared_future_reference_source", 1, true, scn::shared_future_reference_source(o, R, o.cases));
+    RUN("shared_future_many_awaiters", 1, true, scn::shared_future_many_awaiters(o, R, o.cases));
     return 0;
 }
